@@ -57,6 +57,14 @@ def run(ctx):
             return
         inp = ju.inputs
         try:
+            wfo = model_run(ref, ju, ["wf"])
+        except RuntimeError as e:
+            wfo = [str(e)]
+        if wfo != ["ok true"]:   # the theorems are about well-formed annotated schemas: every kernel dump must be one
+            with lock:
+                stats["wf_false"] = stats.get("wf_false", 0) + 1
+                unit_errors.append((u.name, f"wf_jschema is not true for the kernel dump: {wfo}"))
+        try:
             mo = model_run(ref, ju, [f"jw1 {t} 1 {h}" for t, n, h, k in inp])
             dg = model_run(ref, ju, [f"diag {t} 1 {h}" for t, n, h, k in inp])
         except RuntimeError as e:
